@@ -319,6 +319,12 @@ type recChain struct {
 	// inside the wrapper's progress.
 	onCallback atomic.Pointer[func()]
 
+	// onProbe, when set, runs at the start of every VerifyBlock/AcceptBlock,
+	// before onCallback (on the calling goroutine, no recorder lock held). It is
+	// a pure observation point (C21: health probes while FinishStateSync is in
+	// progress) and is independent of the schedule-steering onCallback.
+	onProbe atomic.Pointer[func(kind string)]
+
 	// onIndex, when set, runs inside ChainIndex.UpdateLastAccepted as the
 	// wrapper calls it from Accept (on the accepting goroutine): before the
 	// block is written to the index and right after (the latter is the window
@@ -422,6 +428,20 @@ func (c *recChain) setOnCallback(f func()) {
 func (c *recChain) callback() {
 	if f := c.onCallback.Load(); f != nil {
 		(*f)()
+	}
+}
+
+func (c *recChain) setOnProbe(f func(kind string)) {
+	if f == nil {
+		c.onProbe.Store(nil)
+		return
+	}
+	c.onProbe.Store(&f)
+}
+
+func (c *recChain) probe(kind string) {
+	if f := c.onProbe.Load(); f != nil {
+		(*f)(kind)
 	}
 }
 
@@ -562,6 +582,7 @@ func (c *recChain) BuildBlock(_ context.Context, blockCtx *block.Context, parent
 var errInvalidBlock = errors.New("snowx: block refused by the chain")
 
 func (c *recChain) VerifyBlock(_ context.Context, parent *outBlk, b *blk) (*outBlk, error) {
+	c.probe("verify")
 	c.callback()
 	c.mu.Lock()
 	c.seq++
@@ -596,6 +617,7 @@ func (c *recChain) VerifyBlock(_ context.Context, parent *outBlk, b *blk) (*outB
 }
 
 func (c *recChain) AcceptBlock(_ context.Context, parent *accBlk, o *outBlk) (*accBlk, error) {
+	c.probe("accept")
 	c.callback()
 	c.gate.pass()
 	c.mu.Lock()
@@ -792,6 +814,12 @@ type engine struct {
 	// every Accept call of the engine thread.
 	hlog      *heightLog
 	acceptSeq atomic.Uint64
+
+	// handoverInvalid is set by planFinish (C21): the processing blocks that
+	// will fail their own re-verification in the coming FinishStateSync and that
+	// nobody decides while it runs.
+	handoverInvalid   int
+	handoverReprocess int
 
 	lag     int // accepts issued - permits granted (only while the gate is closed)
 	maxSeen int
